@@ -44,6 +44,7 @@ def check(model, tier):
 
     _merge.r05_1_simplify_discipline(ctx, rule="R14.12")
     structure.r_transfer_reapply_engine(ctx, "R14.13")
+    _reqeval.r_common_columns_exact(ctx, "R14.14")
     structure.r06_1_flags(ctx, rule="R14.8")
     from ..rules import commute as _commute
 
